@@ -281,3 +281,74 @@ func resolversKeepNothing(c *core.Ctx) {
 	}
 	c.Stat("attr_resolvers", n)
 }
+
+// ---------------------------------------------------------------------------
+// configurationErrorsAreNotDiscarded: while the host's configuration is turned
+// into the global environment (package risor), a repository function that is
+// handed a value to install and reports failure through an error result is
+// never called as a bare statement.
+// A discarded error there means that something the host asked for (an override
+// of a module attribute) silently did not happen, and the script gets the
+// original.
+func configurationErrorsAreNotDiscarded(c *core.Ctx) {
+	p := c.P
+	n := 0
+	for _, fn := range repoFns(p, ".") {
+		for _, b := range fn.Blocks {
+			for _, in := range b.Instrs {
+				call, ok := in.(*ssa.Call)
+				if !ok {
+					continue
+				}
+				cal := call.Call.StaticCallee()
+				if cal == nil || !core.RepoFunc(cal) {
+					continue
+				}
+				res := cal.Signature.Results()
+				if res.Len() == 0 || !isErrorType(res.At(res.Len()-1).Type()) {
+					continue
+				}
+				// only calls that are handed a value to install: an interface-typed
+				// argument that is not the nil literal (removing a name that is not
+				// there, or re-running a cached init, loses nothing)
+				installs := false
+				args := call.Call.Args
+				if cal.Signature.Recv() != nil && len(args) > 0 {
+					args = args[1:]
+				}
+				for _, a := range args {
+					if _, isIface := a.Type().Underlying().(*types.Interface); isIface && !isNilValue(a) {
+						installs = true
+					}
+				}
+				if !installs {
+					continue
+				}
+				n++
+				used := call.Referrers() != nil && len(*call.Referrers()) > 0
+				c.Check(used, core.SSAName(fn)+"|error-of-"+cal.Name()+"-looked-at|"+sprintf("%d", countBefore(fn, in, cal)), p.Pos(call.Pos()),
+					core.SSAName(fn)+" calls "+core.SSAName(cal)+ife(used, " and looks at its error", " as a bare statement: its error is discarded, so a failure (an override the module refuses) goes unreported and the configuration silently differs from what the host asked for"))
+			}
+		}
+	}
+	if n == 0 {
+		core.Undecidedf("package risor calls no repository function that returns an error")
+	}
+	c.Stat("error_returning_calls", n)
+}
+
+// countBefore numbers the calls of cal in fn up to in (stable keys without line numbers).
+func countBefore(fn *ssa.Function, at ssa.Instruction, cal *ssa.Function) int {
+	k := 0
+	for _, b := range fn.Blocks {
+		for _, in := range b.Instrs {
+			if call, ok := in.(*ssa.Call); ok && call.Call.StaticCallee() == cal {
+				k++
+			}
+			if in == at {
+				return k
+			}
+		}
+	}
+	return k
+}
